@@ -8,7 +8,11 @@ git history report over mocked repositories, console help h / hh):
                          rendering, character for character
   nocolor_has_no_escape  no ESC in the no_color rendering (whole, plain text, lines)
   lines_equal_whole      a result consumed line by line carries the same text (and the same colours)
-                         as the result consumed whole, in either order of consumption
+                         as the result consumed whole, in either order of consumption - and every
+                         time: one and the same result object consumed again (iterated twice, iterated
+                         after an abandoned partial iteration, a paused iteration resumed after another
+                         one, two iterations interleaved, str() / plain_text() in between) gives the
+                         complete, identical text each time (the consumption schedule of a request)
   history_independent    a rendering requested after a history of other renderings, other colours
                          configurations (created, used, dropped, garbage collected), other palettes
                          and replaced global configurations equals the rendering of a freshly
@@ -22,6 +26,12 @@ A *case* is a history: a list of steps
   ['conf', slot, spec]                  new ColorsConfig(spec['init'], no_color=spec['no_color'])
   ['reg', slot, palette_name, no_color] construct (= register + cache) a palette under the config
   ['render', slot, obj_name, route]     render the persistent object; all four clauses are checked
+  ['render', slot, obj_name, route, schedule]
+                                        the same + one more result object of the request is consumed
+                                        according to `schedule`, a list of 'iter' (all lines), 'str',
+                                        'plain', ['take', k] (k lines, the iterator stays paused),
+                                        'resume' (the rest of the paused iterator), 'zip' (two iterators
+                                        of the result advanced in lockstep)
   ['drop', slot]                        forget the config, gc.collect()
   ['global', slot]                      set_global_colors_config(config of the slot)
   ['churn', obj, route, seed, rounds]   create config / render / discard / gc.collect(), repeatedly
@@ -730,7 +740,9 @@ def map_signature(conf):
 # one rendering, consumed in both orders
 
 class Rendering:
-    __slots__ = ('whole', 'plain', 'lines', 'plines', 'whole_again', 'whole_b', 'lines_b', 'nontext', 'exc')
+    __slots__ = ('whole', 'plain', 'lines', 'plines', 'whole_again', 'whole_b', 'lines_b', 'nontext', 'exc',
+                 'reps')     # reps: what the consumption schedule observed (not part of key(): the reference
+                             # is consumed once; clause 3 compares reps with the first consumption)
 
     def key(self):
         return (self.whole, self.plain, self.lines, self.plines, self.whole_again, self.whole_b,
@@ -766,10 +778,10 @@ def as_global(conf):
         akc.set_global_colors_config(saved)
 
 
-def render(kind, handle, conf, spec, route, no_color, track=None):
+def render(kind, handle, conf, spec, route, no_color, track=None, schedule=None):
     """render `handle` (kind-specific) under `conf` via `route`; never raises (except Budget)"""
     try:
-        return _render(kind, handle, conf, spec, route, no_color, track)
+        return _render(kind, handle, conf, spec, route, no_color, track, schedule)
     except Budget:
         raise
     except Exception as e:      # noqa  (code under test may raise anything)
@@ -811,7 +823,52 @@ def _palette_args(kind, conf, route):
     raise ValueError(route)
 
 
-def _render(kind, handle, conf, spec, route, no_color, track):
+_END = object()
+
+
+def consume(r, schedule):
+    """consume ONE result object according to `schedule`; -> [[op, observed]] (JSON-able).
+    'iter' -> texts of all lines; 'str' / 'plain' -> the text; ['take', k] -> texts of the first k lines
+    (the iterator is kept, paused); 'resume' -> texts of ALL lines the paused iterator gave (before and
+    after the pause; skipped when nothing is paused); 'zip' -> [lines of iterator a, lines of iterator b],
+    the two advanced in lockstep"""
+    out = []
+    paused = None
+    for op in schedule:
+        if op == 'iter':
+            out.append(['iter', _line_texts(list(r))[0]])
+        elif op == 'str':
+            out.append(['str', str(r)])
+        elif op == 'plain':
+            out.append(['plain', r.plain_text()])
+        elif op == 'zip':
+            ia, ib = iter(r), iter(r)
+            a, b = [], []
+            while True:
+                x, y = next(ia, _END), next(ib, _END)
+                if x is _END and y is _END:
+                    break
+                if x is not _END:
+                    a.append(x)
+                if y is not _END:
+                    b.append(y)
+            out.append(['zip', [_line_texts(a)[0], _line_texts(b)[0]]])
+        elif op == 'resume':
+            if paused is not None:
+                it, got = paused
+                paused = None
+                out.append(['resume', got + _line_texts(list(it))[0]])
+        elif isinstance(op, (list, tuple)) and len(op) == 2 and op[0] == 'take':
+            it = iter(r)
+            got = _line_texts(list(itertools.islice(it, int(op[1]))))[0]
+            paused = (it, got)
+            out.append(['take', got])
+        else:
+            raise ValueError(f"unknown consumption {op!r}")
+    return out
+
+
+def _render(kind, handle, conf, spec, route, no_color, track, schedule=None):
     if kind == 'help':
         return _render_help(handle, conf, spec, route, no_color)
     pal, cc = _palette_args(kind, conf, route)
@@ -838,8 +895,9 @@ def _render(kind, handle, conf, spec, route, no_color, track):
         whole_b = str(r2)
         lines_b = list(r2)
         ls, lp, nontext = _line_texts(lines)
+        reps = consume(mk(), schedule) if schedule else None
         res = _rendering(whole=whole, plain=plain, lines=ls, plines=lp, whole_again=again, whole_b=whole_b,
-                         lines_b=_line_texts(lines_b)[0], nontext=nontext)
+                         lines_b=_line_texts(lines_b)[0], nontext=nontext, reps=reps)
     if track is not None and pal is not None and not isinstance(pal, type) and hasattr(pal, 'get_sub_palette'):
         try:
             track(pal.get_sub_palette(PPEnumFieldType.EnumPalette))
@@ -1076,6 +1134,88 @@ def clauses_1_2_3(name, has_enum, spec, route, col, noc):
                         'enum-column-stale-colours' if has_enum and same_text else 'consumption-order',
                         f"{where} ({tag}): a result consumed whole-then-lines differs from one consumed "
                         f"lines-then-whole; {first_diff(x.whole_b, x.whole)}"))
+        out += clause_3_again(where, tag, has_enum, x)
+    return out
+
+
+def schedule_events(x):
+    """reach events of one rendering whose schedule was really carried out (x.reps)"""
+    if x.exc or not x.reps or x.lines is None:
+        return []
+    ev = set()
+    total = len(x.lines)
+    iters = 0            # iterations of the result started so far
+    partial = False      # ... one of them abandoned / paused after >= 1 line, before its end
+    paused_at = None
+    for i, (op, got) in enumerate(x.reps):
+        if op == 'iter':
+            if iters:
+                ev.add('same-result-iterated-twice')
+            if partial:
+                ev.add('result-iterated-after-partial-iteration')
+            iters += 1
+        elif op == 'take':
+            if iters:
+                ev.add('same-result-iterated-twice')
+            if 1 <= len(got) < total:
+                partial = True
+                paused_at = i
+            iters += 1
+        elif op == 'resume':
+            if paused_at is not None and any(o in ('iter', 'zip', 'take') for o, _ in x.reps[paused_at + 1:i]):
+                ev.add('paused-iteration-resumed-after-another-iteration')
+            paused_at = None
+        elif op == 'zip':
+            if total >= 2:
+                ev.add('two-iterations-of-one-result-interleaved')
+            if iters:
+                ev.add('same-result-iterated-twice')
+            iters += 2
+        elif op in ('str', 'plain'):
+            if iters and any(o in ('iter', 'take', 'zip') for o, _ in x.reps[i + 1:]):
+                ev.add('result-iterated-before-and-after-whole-text')
+    return sorted(ev)
+
+
+def clause_3_again(where, tag, has_enum, x):
+    """one and the same result object consumed again and again (x.reps, see consume()): every complete
+    consumption gives the text of the first one (x.lines / x.whole / x.plain, all obtained from another
+    result of the same request), a partial one gives its beginning.  One finding per class."""
+    out = []
+    seen = set()
+    want_lines = [runs(a) for a in x.lines]
+    done = []
+    for op, got in x.reps or ():
+        if op == 'str':
+            pairs = [(runs(got), runs(x.whole), got, x.whole)]
+        elif op == 'plain':
+            pairs = [(got, x.plain, got, x.plain)]
+        elif op == 'take':
+            n = len(got)
+            pairs = [([runs(a) for a in got], want_lines[:n], "\n".join(got), "\n".join(x.lines[:n]))]
+        elif op == 'zip':
+            pairs = [([runs(a) for a in g], want_lines, "\n".join(g), "\n".join(x.lines)) for g in got]
+        else:       # 'iter', 'resume'
+            pairs = [([runs(a) for a in got], want_lines, "\n".join(got), "\n".join(x.lines))]
+        for have, want, a, b in pairs:
+            if have == want:
+                continue
+            cls = 'interleaved-iterations' if op in ('zip', 'resume') else 'reiteration'
+            if has_enum and strip_all(a) == strip_all(b):
+                cls = 'enum-column-stale-colours'
+            if cls in seen:
+                continue
+            seen.add(cls)
+            what = {'iter': "iterating it", 'str': "str() of it", 'plain': "plain_text() of it",
+                    'take': "the first lines of a new iteration of it",
+                    'resume': "the lines of its paused iteration (those taken before the pause + the rest)",
+                    'zip': "one of two iterations of it advanced in lockstep"}[op]
+            after = ", ".join(done) if done else "nothing else"
+            out.append(('lines_equal_whole', cls,
+                        f"{where} ({tag}): the same result object consumed repeatedly: {what} after [{after}] gives "
+                        f"{len(a.split(chr(10))) if a else 0} line(s) which differ from the text of the result "
+                        f"(another result of the same request consumed once: {len(x.lines)} lines); {first_diff(a, b)}"))
+        done.append(op if op != 'take' else f"take {len(got)}")
     return out
 
 
@@ -1153,13 +1293,16 @@ class Runner:
             self.fails.append((clause, key, text, self.step, ctx))
 
     # ---- one render request: all four clauses
-    def check(self, name, conf, spec, route):
+    def check(self, name, conf, spec, route, schedule=None):
         kind, builder, has_enum = OBJECTS[name]
         handle = self.obj(name)
         regs = registered_names(conf)            # the configuration in force, at the moment of the request
         sig = map_signature(conf)
-        col = render(kind, handle, conf, spec, route, False, self.track)
-        noc = render(kind, handle, conf, spec, route, True, None)
+        col = render(kind, handle, conf, spec, route, False, self.track, schedule)
+        noc = render(kind, handle, conf, spec, route, True, None, schedule)
+        for x in (col, noc):
+            for ev in schedule_events(x):
+                self.hits[ev] += 1
         self.hits['same-result-consumed-twice'] += 1
         if self.hits['render'] >= 1:
             self.hits['nocolor-requested-twice'] += 1
@@ -1182,7 +1325,7 @@ class Runner:
                 self.diags.append(f"rendering {name} via {route} raises {col.exc[:200]} (also on a fresh object)")
             res += clause_4(name, has_enum, spec, route, 'coloured', col, fcol)
             res += clause_4(name, has_enum, spec, route, 'no_color', noc, fnoc)
-        self.add(res, (spec, name, route))
+        self.add(res, (spec, name, route, schedule))
         return res
 
     # ---- steps
@@ -1210,7 +1353,8 @@ class Runner:
                 except Exception as e:      # noqa
                     self.diags.append(f"constructing palette {pname} raises {type(e).__name__}: {e}")
         elif op == 'render':
-            _, slot, name, route = st
+            _, slot, name, route = st[:4]
+            schedule = st[4] if len(st) > 4 else None
             if route == 'global':
                 conf, spec = akc.get_global_colors_config(), self.global_spec
                 tag = ('global', 0)
@@ -1230,7 +1374,7 @@ class Runner:
                                         for n in GROUP_MEMBERS[GROUP_OF[name][0]]):
                 self.hits['table-sharing-format-object-with-rendered-table'] += 1
             self.rendered_names.add(name)
-            self.check(name, conf, spec, route)
+            self.check(name, conf, spec, route, schedule)
         elif op == 'drop':
             _, slot = st
             if slot in self.slots:
@@ -1391,8 +1535,9 @@ def _run_history(steps, _reduce, server):
             if (clause, key) in reduced:
                 continue
             reduced.add((clause, key))
-            spec, name, route = ctx
-            mini = [['conf', 0, spec]] + ([['global', 0]] if route == 'global' else []) + [['render', 0, name, route]]
+            spec, name, route, schedule = ctx
+            mini = [['conf', 0, spec]] + ([['global', 0]] if route == 'global' else []) + \
+                [['render', 0, name, route] + ([schedule] if schedule else [])]
             if _reduce and mini != case['steps']:
                 sub = _run_history(mini, False, server)
                 if any(f[1] == f"C10.{clause}:{key}" for f in sub['fails']):
@@ -1405,7 +1550,53 @@ def _run_history(steps, _reduce, server):
 # --------------------------------------------------------------------------------------------
 # generation of histories
 
-def gen_history(rng):
+# consumption schedules of one result object (see consume()); the curated ones rotate over the grid
+SCHEDULES = [
+    ['iter', 'iter'],                                   # lines, lines again
+    [['take', 2], 'iter', 'str'],                       # a pager which stopped early, then everything
+    ['str', 'iter', 'plain', 'iter'],                   # whole first, lines twice
+    [['take', 1], 'iter', 'resume'],                    # a paused iteration resumed after a complete one
+    ['zip', 'iter'],                                    # two iterations in lockstep
+    ['iter', 'str', ['take', 3], ['take', 1], 'iter'],  # two abandoned iterations
+    [['take', 2], 'zip', 'resume', 'str', 'iter'],
+    ['iter', ['take', 5], 'plain', 'resume', 'iter', 'iter'],
+]
+KINDS_WITH_RESULT = ('pp', 'table', 'ghist')      # kinds whose rendering is a lazily evaluated result object
+
+
+def gen_schedule(rng):
+    """2..6 consumptions of one result, at least two of them line by line"""
+    while True:
+        out = []
+        paused = False
+        for _ in range(rng.randint(2, 6)):
+            r = rng.random()
+            if r < 0.35:
+                out.append('iter')
+            elif r < 0.60:
+                out.append(['take', rng.choice([1, 1, 2, 3, 5, 8, 1000])])
+                paused = True
+            elif r < 0.72 and paused:
+                out.append('resume')
+                paused = False
+            elif r < 0.82:
+                out.append('zip')
+            elif r < 0.92:
+                out.append('str')
+            else:
+                out.append('plain')
+        if sum(1 for op in out if op in ('iter', 'zip') or isinstance(op, list)) >= 2:
+            return out
+
+
+def with_schedule(step, schedule):
+    """the render step with a consumption schedule (kinds without a result object: unchanged)"""
+    if step[0] == 'render' and len(step) == 4 and OBJECTS[step[2]][0] in KINDS_WITH_RESULT:
+        return step + [schedule]
+    return step
+
+
+def gen_history(rng, srng=None):
     n = rng.randint(3, 12)
     steps = []
     alive = set()
@@ -1433,7 +1624,10 @@ def gen_history(rng):
             if route == 'global' and not have_global and rng.random() < 0.7 and len(steps) < n - 1:
                 steps.append(['global', rng.choice(sorted(alive))])
                 have_global = True
-            steps.append(['render', rng.choice(sorted(alive)), name, route])
+            step = ['render', rng.choice(sorted(alive)), name, route]
+            if srng is not None and srng.random() < 0.8:       # schedules come from a generator of their own
+                step = with_schedule(step, gen_schedule(srng))
+            steps.append(step)
         elif r < 0.93:
             slot = rng.choice(sorted(alive))
             steps.append(['drop', slot])
@@ -1457,12 +1651,13 @@ def scripted_history(name, i):
          'no_color': False}
     c = gen_spec(rng, ids=list(SYNT_IDS))
     c['no_color'] = False
-    return [
+    steps = [
         ['conf', 0, a], ['render', 0, name, r0],
         ['conf', 1, b], ['reg', 1, PALETTE_NAMES[i % len(PALETTE_NAMES)], False], ['render', 1, name, r1],
         ['drop', 0], ['conf', 0, c], ['render', 0, name, r0], ['render', 0, name, r0],
         ['global', 1], ['render', 1, name, 'global'], ['render', 0, name, r1],
     ]
+    return [with_schedule(st, SCHEDULES[(i + j) % len(SCHEDULES)]) for j, st in enumerate(steps)]
 
 
 def shared_format_histories(tier):
@@ -1480,7 +1675,7 @@ def shared_format_histories(tier):
                 steps += [['render', 0, n, route] for n in order]
                 # once more, under another configuration, in reverse order
                 steps += [['conf', 1, specs[(k + 1) % 2]]] + [['render', 1, n, 'conf'] for n in reversed(order)]
-                out.append(steps)
+                out.append([with_schedule(st, SCHEDULES[(k + j) % len(SCHEDULES)]) for j, st in enumerate(steps)])
                 k += 1
     return out
 
@@ -1494,11 +1689,14 @@ def all_tasks(tier, seed):
             routes = ROUTES[OBJECTS[name][0]]
             if tier == 'quick':         # the first route + one more, rotating; all routes in the thorough tier
                 routes = [routes[0], routes[1 + (oi + si) % (len(routes) - 1)]]
-            for route in routes:
+            for ri, route in enumerate(routes):
+                # the consumption schedule of the request rotates over the curated ones; every object
+                # meets every curated schedule (>= 8 configurations x 2 routes, offsets 2 * si + ri)
+                step = with_schedule(['render', 0, name, route], SCHEDULES[(oi + 2 * si + ri) % len(SCHEDULES)])
                 if route == 'global':
-                    tasks.append([['conf', 0, spec], ['global', 0], ['render', 0, name, route]])
+                    tasks.append([['conf', 0, spec], ['global', 0], step])
                 else:
-                    tasks.append([['conf', 0, spec], ['render', 0, name, route]])
+                    tasks.append([['conf', 0, spec], step])
     n_grid = len(tasks)
     # (B) scripted histories and churns
     for i, name in enumerate(OBJECT_NAMES):
@@ -1516,8 +1714,9 @@ def all_tasks(tier, seed):
     # (C) seeded random histories
     rng = random.Random(seed * 7919 + 10)
     n_rand = 300 if tier == 'quick' else 3000
+    srng = random.Random(seed * 7919 + 11)
     for _ in range(n_rand):
-        tasks.append(gen_history(rng))
+        tasks.append(gen_history(rng, srng))
     return tasks, {'grid': n_grid, 'curated': n_curated, 'random': n_rand, 'grid_configs': len(specs)}
 
 
@@ -1558,6 +1757,11 @@ REQUIRED_REACH = [
     'same-result-consumed-twice',
     'nocolor-requested-twice',
     'table-sharing-format-object-with-rendered-table',
+    'same-result-iterated-twice',
+    'result-iterated-after-partial-iteration',
+    'paused-iteration-resumed-after-another-iteration',
+    'two-iterations-of-one-result-interleaved',
+    'result-iterated-before-and-after-whole-text',
 ]
 
 
